@@ -11,7 +11,7 @@ From Coq Require Import List Arith Bool.
 From PV Require Import Model.Pool Proofs.PoolProofs Model.PoolLaunch Proofs.PoolLaunchProofs
   Model.GrpcJsonStart Proofs.GrpcJsonStartProofs Model.GrpcWarmUp Proofs.GrpcWarmUpProofs
   Model.EncAggrRun Proofs.EncAggrRunProofs Model.PlugFactory Proofs.PlugFactoryProofs
-  Model.ScanDecode Proofs.ScanDecodeProofs.
+  Model.ScanDecode Proofs.ScanDecodeProofs Model.JsonDecode Proofs.JsonDecodeProofs.
 Import ListNotations.
 
 (* the correspondence run and the theorems are about the same variant of the code *)
@@ -613,4 +613,84 @@ Example C05_example_scan_provider :
   dp_run 10 sd_fixed (fst (sd_file 2 1 SpBad)) false 0 = (PFail, 2) /\
   dp_run 10 sd_fixed (fst (sd_file 2 1 SpScan)) true 0 = (PFail, 2) /\
   dp_run 10 sd_orig (fst (sd_file 2 1 SpNone)) false 0 = (POutOfFuel, 10).
+Proof. repeat split. Qed.
+
+(* ---- the ammo provider as a component: the JSON decode provider (Model/JsonDecode.v) ---- *)
+
+(* "if the ammo provider fails ... at the very end ... a component error is never swallowed": for EVERY data, however the
+   source cuts it into reads and whether or not its last read carries io.EOF together with the data, with no limit the
+   provider fails exactly when something in the data does not decode (having handed out the ammo before it), and
+   otherwise ends with nil having handed out everything. *)
+Theorem C05_json_provider_reports_undecodable_data : forall chunks eofwl d,
+  jd_pass jd_tree 0 eofwl chunks false d =
+  if jd_spec_fails (concat chunks) then (JdFail, d + jd_ammo_before_bad (concat chunks))
+  else (JdNil, d + jd_count_ammo (concat chunks)).
+Proof. exact jd_pass_tree_spec. Qed.
+Print Assumptions C05_json_provider_reports_undecodable_data.
+
+(* under any limit: a nil result means the limit was reached or nothing in the data is broken *)
+Theorem C05_json_provider_nil_is_honest : forall chunks limit eofwl d n,
+  jd_pass jd_tree limit eofwl chunks false d = (JdNil, n) ->
+  jd_lim_reached limit n = true \/ jd_spec_fails (concat chunks) = false.
+Proof. exact jd_pass_tree_nil_honest. Qed.
+Print Assumptions C05_json_provider_nil_is_honest.
+
+(* how the source cuts the data into reads does not matter *)
+Theorem C05_json_provider_reads_do_not_matter : forall chunks limit eofwl d,
+  jd_pass jd_tree limit eofwl chunks false d =
+  match jd_scan limit false (concat chunks) d with
+  | (Some res, d') => (res, d')
+  | (None, d') => (JdNil, d')
+  end.
+Proof. exact jd_pass_tree_chunking. Qed.
+Print Assumptions C05_json_provider_reads_do_not_matter.
+
+(* the edit "note the source's error also when it came with data" refuted: on a source that hands its data out in one
+   read together with io.EOF, NO data whatsoever makes the provider fail *)
+Theorem C05_json_provider_noting_error_with_data_refuted : forall l limit d,
+  fst (jd_pass jd_notes_error_with_data limit true [l] false d) <> JdFail.
+Proof. exact jd_pass_noting_swallows. Qed.
+Print Assumptions C05_json_provider_noting_error_with_data_refuted.
+
+(* "a run always terminates": a source that can be sought and holds no ammo (nothing, or white space only) ends the
+   provider after one pass, whatever passes (0 = unlimited included) and limit say, as long as the guard is installed *)
+Theorem C05_json_provider_no_ammo_terminates : forall v passes limit nonempty fuel,
+  jv_guard v passes = true ->
+  jd_passes (S fuel) v passes limit 0 nonempty 0 0 0 = (JdNil, 0).
+Proof. exact jd_passes_no_ammo_ends. Qed.
+Print Assumptions C05_json_provider_no_ammo_terminates.
+
+Theorem C05_json_provider_tree_installs_the_guard : forall passes, jv_guard jd_current passes = true.
+Proof. reflexivity. Qed.
+Print Assumptions C05_json_provider_tree_installs_the_guard.
+
+(* the edit "install the guard only for passes > 1" refuted: passes = 0 on white space only never ends, whatever the fuel *)
+Theorem C05_json_provider_guard_only_for_several_passes_refuted : forall fuel limit pc db,
+  jd_passes fuel jd_guard_for_several_passes 0 limit 0 true pc 0 db = (JdOutOfFuel, 0).
+Proof. exact jd_passes_guardless_never_ends. Qed.
+Print Assumptions C05_json_provider_guard_only_for_several_passes_refuted.
+
+(* data with ammo: the guard never refuses a rewind -- `passes` passes hand out passes * a ammo, then nil *)
+Theorem C05_json_provider_passes_counted : forall v a passes n pc d db fuel,
+  0 < a -> 0 < n -> pc + n = passes -> db <= d -> n <= fuel ->
+  jd_passes fuel v passes 0 a true pc d db = (JdNil, d + n * a).
+Proof. exact jd_passes_counts. Qed.
+Print Assumptions C05_json_provider_passes_counted.
+
+(* with a limit the provider ends whatever passes says (also 0 = unlimited) *)
+Theorem C05_json_provider_limit_terminates : forall v a passes limit fuel pc d db,
+  0 < a -> 0 < limit -> limit <= d + fuel ->
+  fst (jd_passes (S fuel) v passes limit a true pc d db) = JdNil.
+Proof. exact jd_passes_limit_ends. Qed.
+Print Assumptions C05_json_provider_limit_terminates.
+
+Example C05_example_json_provider :
+  jd_pass jd_tree 0 true [[JiAmmo; JiBlank]; [JiAmmo; JiBad]] false 0 = (JdFail, 2) /\
+  jd_pass jd_notes_error_with_data 0 true [[JiAmmo; JiBlank]; [JiAmmo; JiBad]] false 0 = (JdNil, 2) /\
+  jd_pass jd_tree 2 false [jd_items 3 1 JpBad] false 0 = (JdNil, 2) /\
+  jd_passes 5 jd_tree 0 0 0 true 0 0 0 = (JdNil, 0) /\
+  jd_passes 5 jd_guard_for_several_passes 0 0 0 true 0 0 0 = (JdOutOfFuel, 0) /\
+  jd_passes 5 jd_tree 3 0 2 true 0 0 0 = (JdNil, 6) /\
+  jd_passes 9 jd_tree 0 7 2 true 0 0 0 = (JdNil, 7) /\
+  jd_spec_delivered true 3 0 (jd_items 2 0 JpNone) = 6.
 Proof. repeat split. Qed.
